@@ -336,4 +336,131 @@ theorem reorgDisconnect_res {c : Ctx} {S : List Block} (H : ReorgHyp c S)
               subst hy
               rw [hexit, hte]
 
+-- ------------------------------------------------------------------ 4. the connect phase
+
+/-- THE HASH ARGUMENT: a known block `b'` that points at the tip of `T` and passes the first check of filterBlock
+    (the node has a block with its id at its height) is the next block of the node's chain after `T` -/
+theorem next_of_check {e : Env} {G : Block} (EH : EnvHyp e G) {N T : List Block} (hN : ChainOK e G N)
+    (hT : ChainOK e G T) {b' t : Block} (hbk : AMap.get e.known b'.id = some b')
+    (ht : T[T.length - 1]? = some t) (hprev : b'.prev = t.id) {oc : Block} (hoc : N[b'.height]? = some oc)
+    (hid : oc.id = b'.id) : ∃ rest, N = T ++ b' :: rest ∧ b'.height = T.length := by
+  have hock := hN.known oc (mem_of_get hoc)
+  rw [hid, hbk] at hock
+  have hocb : b' = oc := Option.some.inj hock
+  have hb : N[b'.height]? = some b' := by rw [hoc, hocb]
+  have htk := hT.known t (mem_of_get ht)
+  have hTpos := hT.good.length_pos
+  by_cases h0 : b'.height = 0
+  · exfalso
+    have hG := EH.genesisOnly _ _ hbk h0
+    rw [hG] at hprev
+    exact EH.genesisPrev _ _ htk hprev.symm
+  · obtain ⟨j, hj⟩ : ∃ j, b'.height = j + 1 := ⟨b'.height - 1, by omega⟩
+    rw [hj] at hb
+    have hjN : j < N.length := by have := (List.getElem?_eq_some_iff.1 hb).1; omega
+    have hy : N[j]? = some N[j] := List.getElem?_eq_getElem hjN
+    have hidt : t.id = N[j].id := by rw [← hN.good.prev_at hy hb, hprev]
+    have hinj : IdInj (T ++ N) := idInj_of_known (known := e.known) (fun x hx => by
+      rcases List.mem_append.1 hx with h | h
+      · exact hT.known x h
+      · exact hN.known x h)
+    have hpos := pos_of_id hT.good hN.good hinj ht hy hidt
+    have hpre := prefix_of_id hT.good hN.good hinj _ _ _ ht (by rw [hpos]; exact hy) hidt
+    rw [show T.length - 1 + 1 = T.length by omega, List.take_length] at hpre
+    have hTlen : T.length = j + 1 := by omega
+    replace hpre : T = N.take (j + 1) := by rw [← hTlen]; exact hpre
+    refine ⟨N.drop (j + 2), ?_, by omega⟩
+    conv => rhs; rw [hpre]
+    have : N.drop (j + 1) = b' :: N.drop (j + 2) := by
+      rw [List.drop_eq_getElem?_toList_append, hb]; rfl
+    rw [← this, List.take_append_drop]
+
+theorem snoc_eq_take {N T rest : List Block} {b' : Block} (h : N = T ++ b' :: rest) :
+    T ++ [b'] = N.take (T.length + 1) := by
+  have : N = (T ++ [b']) ++ rest := by rw [h]; simp
+  rw [this, List.take_left' (by simp)]
+
+/-- the condition at a filterBlock call from a store holding `T`, for a known block that points at the tip of `T` -/
+theorem pfInv_head {e : Env} {G : Block} (EH : EnvHyp e G) {N T : List Block} (hN : ChainOK e G N)
+    (hT : ChainOK e G T) (hBN : ChainBounds e.p e.own N) (hBT : ChainBounds e.p e.own T) {s : Store}
+    (hI : Inv (e.ctx N) s T) (hAR : AllReady e.own (readyWallets s e.wallets))
+    (hne : (readyWallets s e.wallets).isEmpty = false) {b' t : Block} (hbk : AMap.get e.known b'.id = some b')
+    (ht : T[T.length - 1]? = some t) (hprev : b'.prev = t.id) :
+    PfInv (e.ctx N) s (readyWallets s e.wallets) b' := by
+  refine ⟨T, hI, rfl, hAR, hne, hBT, fun oc hoc hid => ?_⟩
+  obtain ⟨rest, h1, h2⟩ := next_of_check EH hN hT hbk ht hprev hoc hid
+  refine ⟨rest, h1, h2, hN.valid, ?_⟩
+  rw [snoc_eq_take h1]
+  exact hBN.take _
+
+theorem connectAllOK_of {e : Env} {G : Block} (EH : EnvHyp e G) {N : List Block} (hN : ChainOK e G N)
+    (hBN : ChainBounds e.p e.own N) :
+    ∀ (tc T : List Block) (s : Store), ChainOK e G T → ChainBounds e.p e.own T → Inv (e.ctx N) s T →
+      AllReady e.own (readyWallets s e.wallets) → (readyWallets s e.wallets).isEmpty = false →
+      Chained (e.ctx N) tc → (∀ y, tc.head? = some y → ∃ t, T[T.length - 1]? = some t ∧ y.prev = t.id) →
+      ∀ ready, ready = readyWallets s e.wallets →
+      connectAllOK (e.ctx N) (PfInv (e.ctx N)) ready tc s := by
+  intro tc
+  induction tc with
+  | nil => intro T s _ _ _ _ _ _ _ _ _; trivial
+  | cons b' rest ih =>
+    intro T s hT hBT hI hAR hne hL hhd ready hready
+    subst hready
+    obtain ⟨t, ht, hprev⟩ := hhd b' rfl
+    have hbk : AMap.get e.known b'.id = some b' := hL.1 b' List.mem_cons_self
+    unfold connectAllOK
+    refine ⟨pfInv_head EH hN hT hBN hBT hI hAR hne hbk ht hprev, fun x hx => ?_⟩
+    obtain ⟨oc, hoc, hid⟩ := filterBlock_ok_blockAt hx
+    obtain ⟨rest', h1, h2⟩ := next_of_check EH hN hT hbk ht hprev hoc hid
+    obtain ⟨s', conf, hf, hI', hst⟩ := connect_sound (c := e.ctx N) hI h1 hN.valid h2 hAR hne
+    change filterBlock (e.ctx N) s (readyWallets s e.wallets) b' = _ at hf
+    rw [hf] at hx
+    injection hx with hx
+    subst hx
+    have hrw : ∀ ws, readyWallets s' ws = readyWallets s ws := readyWallets_congr hst
+    have hsn := snoc_eq_take h1
+    refine ih (T ++ [b']) s' (by rw [hsn]; exact hN.take _) (by rw [hsn]; exact hBN.take _) hI'
+      (by rw [hrw]; exact hAR) (by rw [hrw]; exact hne) hL.tail.1 (fun y hy => ⟨b', by simp, hL.tail.2 y hy⟩) _
+      (hrw _).symm
+
+-- ------------------------------------------------------------------ 5. reorg, processConnectedBlock
+
+theorem reorgOK_of_J {e : Env} {G : Block} (EH : EnvHyp e G) {N S : List Block} (hN : ChainOK e G N)
+    (hS : ChainOK e G S) {s : Store} {b : Block} (hI : Inv (e.ctx N) s S)
+    (hbk : AMap.get e.known b.id = some b)
+    (hAR : AllReady e.own (readyWallets s e.wallets)) (hne : (readyWallets s e.wallets).isEmpty = false)
+    (hBS : ChainBounds e.p e.own S) (hBN : ChainBounds e.p e.own N) :
+    reorgOK (e.ctx N) (PdInv (e.ctx N)) (PfInv (e.ctx N)) s (tipMeta S) b := by
+  have H : ReorgHyp (e.ctx N) S := reorgHyp_of hN hS
+  have hNk : ∀ x ∈ (e.ctx N).node.chain, AMap.get (e.ctx N).node.known x.id = some x := hN.known
+  unfold reorgOK
+  intro a ha
+  have hL : Chained (e.ctx N) (a.1 :: a.2) := alignNew_chained hNk _ _ _ _ a (Chained.single hbk) ha
+  refine ⟨reorgDisconnectOK_of H hBS hNk hI hAR hL, fun x hx => ?_⟩
+  obtain ⟨k, t, ht, hIk, hr, hLx, hhd⟩ := reorgDisconnect_res H hNk hI hAR hL hx
+  have hkl : k < S.length := (List.getElem?_eq_some_iff.1 ht).1
+  have hlen : (S.take (k + 1)).length = k + 1 := by rw [List.length_take]; omega
+  exact connectAllOK_of EH hN hBN x.2.2 (S.take (k + 1)) x.1 (hS.take k) (hBS.take _) hIk (by rw [hr]; exact hAR)
+    (by rw [hr]; exact hne) hLx
+    (fun y hy => ⟨t, by rw [hlen, Nat.add_sub_cancel, getElem?_take_of_lt (Nat.lt_succ_self k)]; exact ht, hhd y hy⟩)
+    _ rfl
+
+/-- every primitive call of a handler step from a state of the step invariant `J` happens at a store holding the books of a
+    chain `T` (a prefix of the wallet's chain `S` while disconnecting, of the node's chain `N` while connecting), with the
+    argument the tip of `T` resp. the next block of `N` after `T` -/
+theorem processOK_of_J {e : Env} {G : Block} (EH : EnvHyp e G) {N S : List Block} (hN : ChainOK e G N) (hS : ChainOK e G S)
+    {s : Store} {v : Vol} {b : Block} (hI : Inv (e.ctx N) s S) (hv : v.best = tipMeta S)
+    (hbk : AMap.get e.known b.id = some b)
+    (hAR : AllReady e.own (readyWallets s e.wallets)) (hne : (readyWallets s e.wallets).isEmpty = false)
+    (hBS : ChainBounds e.p e.own S) (hBN : ChainBounds e.p e.own N) :
+    processOK (e.ctx N) (PdInv (e.ctx N)) (PfInv (e.ctx N)) s v b := by
+  unfold processOK
+  rw [hv]
+  by_cases hp : b.prev = (tipMeta S).hash
+  · simp only [hp, if_true]
+    obtain ⟨xH, hxH, htip⟩ := tipMeta_good hS.good
+    exact pfInv_head EH hN hS hBN hBS hI hAR hne hbk hxH (by rw [hp, htip])
+  · simp only [hp, if_false]
+    exact reorgOK_of_J EH hN hS hI hbk hAR hne hBS hBN
+
 end MW.Lemmas.Ledger.Trace
